@@ -30,6 +30,60 @@ fn op_kind(op: &Op) -> String {
     }
 }
 
+/// the operations applied with the Screen itself as the parser's listener; Some((index, panic))
+/// if one of them (or the display() / further input afterwards) panics
+fn direct_run(c: u32, l: u32, pk: PK, ops: &[Op]) -> Option<(usize, crate::sys::PanicInfo)> {
+    use memterm::parser_listener::ParserListener;
+    use std::sync::{Arc, Mutex};
+    let scr = Arc::new(Mutex::new(memterm::screen::Screen::new(c, l)));
+    let mut p = if pk == PK::Chars { Some(memterm::parser::Parser::new(scr.clone())) } else { None };
+    let mut bp = if pk == PK::Bytes { Some(memterm::byte_parser::ByteParser::new(scr.clone())) } else { None };
+    for (i, op) in ops.iter().enumerate() {
+        let r = catch(|| match op {
+            Op::Feed(s) => {
+                if let Some(p) = p.as_mut() {
+                    p.feed(s.clone())
+                } else if let Some(bp) = bp.as_mut() {
+                    bp.feed(s.as_bytes())
+                }
+            }
+            Op::FeedBytes(b) => {
+                if let Some(bp) = bp.as_mut() {
+                    bp.feed(b)
+                } else if let Some(p) = p.as_mut() {
+                    p.feed(String::from_utf8_lossy(b).into_owned())
+                }
+            }
+            Op::Api(call) => {
+                let mut g = scr.lock().unwrap_or_else(|e| e.into_inner());
+                match call {
+                    Call::Resize(a, b) => g.resize(*a, *b),
+                    Call::Display => {
+                        let _ = g.display();
+                    }
+                    other => other.apply(&mut *g),
+                }
+            }
+            Op::ClearDirty => scr.lock().unwrap_or_else(|e| e.into_inner()).dirty.clear(),
+            Op::Charset(code) => {
+                if let Some(bp) = bp.as_mut() {
+                    bp.select_other_charset(code);
+                }
+            }
+        });
+        if let Err(pi) = r {
+            return Some((i, pi));
+        }
+    }
+    let r = catch(|| {
+        let _ = scr.lock().unwrap_or_else(|e| e.into_inner()).display();
+    });
+    if let Err(pi) = r {
+        return Some((ops.len().saturating_sub(1), pi));
+    }
+    None
+}
+
 pub fn c01_case(cx: &mut Ctx, c: u32, l: u32, pk: PK, ops: &[Op], kind: &str) {
     let mk = |n: usize| {
         let mut case = Case::new("C01", "ops", c, l, pk);
@@ -37,6 +91,24 @@ pub fn c01_case(cx: &mut Ctx, c: u32, l: u32, pk: PK, ops: &[Op], kind: &str) {
         case
     };
     cx.journal_case(&|| mk(ops.len()));
+    // every third case also runs with the Screen attached to the parser DIRECTLY (no pass-through
+    // listener in between): listener methods the wrapper does not forward - a defaulted trait
+    // method that only Screen overrides - are exercised only this way
+    if cx.stats.evaluations % 3 == 0 {
+        if let Some((i, p)) = direct_run(c, l, pk, ops) {
+            cx.stats.clause("direct-run");
+            cx.violation(Viol {
+                prop: "C01".into(),
+                clause: "panic".into(),
+                op: "direct".into(),
+                bucket: panic_sig(&p),
+                detail: format!("with the Screen attached directly to the parser, op #{} ({}) panicked: '{}' at {}", i, op_kind(&ops[i]), p.msg, p.loc),
+                case: mk(i + 1),
+            });
+            return;
+        }
+        cx.stats.clause("direct-run");
+    }
     let mut sys = Sys::new(c, l, pk);
     // record calls (not snapshots): the call in flight names the operation that panicked
     sys.set_recording(true, false);
@@ -277,6 +349,39 @@ impl Check for C01Check {
                 }
             }
             cx.stats.exhaustive_parts.insert(format!("every 2-way byte cut, byte-at-a-time and char-at-a-time feeding of {} pool sequences (+ sentinel text), UTF-8 and 8-bit, with a mode switch at the first cuts", pool.len()));
+        }
+        // (b0) all 16 777 216 true colours through the API: no panic (the value check is C08's)
+        if cx.begin_group("truecolour sweep") {
+            use memterm::parser_listener::ParserListener;
+            let mut scr = memterm::screen::Screen::new(2, 1);
+            let mut complete = true;
+            for r in 0..256u32 {
+                if !cx.mine(r as u64) {
+                    continue;
+                }
+                for g in 0..256u32 {
+                    let res = catch(|| {
+                        for b in 0..256u32 {
+                            scr.select_graphic_rendition(&[if b % 2 == 0 { 38 } else { 48 }, 2, r, g, b]);
+                        }
+                    });
+                    cx.stats.evaluations += 256;
+                    if res.is_err() {
+                        // find the exact triple with the full monitor
+                        for b in 0..256u32 {
+                            c01_case(cx, 2, 1, PK::None, &[Op::Api(Call::Sgr(vec![if b % 2 == 0 { 38 } else { 48 }, 2, r, g, b]))], "truecolour");
+                        }
+                        scr = memterm::screen::Screen::new(2, 1);
+                    }
+                }
+                if cx.used() > 0.5 || cx.out_of_time() {
+                    complete = false;
+                    break;
+                }
+            }
+            if complete {
+                cx.stats.exhaustive_parts.insert("all 16 777 216 colours 38|48;2;r;g;b through the API (no panic)".into());
+            }
         }
         // (b+) all ordered pairs of the sequences that other terminals implement (title stack,
         // reports, SGR stack, alternate screen ...) and of the OSC strings: state that one leaves
